@@ -68,7 +68,7 @@ Proof.
     assert (HJ : J t g s) by (split; auto; intros _; simpl; auto).
     assert (Hw : J t g (fst (write_block_with_state t hb b s))).
     { apply (J_wbws t g); auto.
-      - left. unfold good_block. rewrite L4, L5. reflexivity.
+      - unfold goodish, good_block. rewrite L4, L5. reflexivity.
       - lia.
       - simpl. rewrite L2; auto.
       - exists hb. rewrite L2, E. split; auto. }
